@@ -1,5 +1,5 @@
 import PwVerif.Proofs.ForLoop
-import PwVerif.Props.C01
+import PwVerif.Proofs.Exec
 /-!
 # Bridge C16 → C01: the sub-graph a `For` node builds, as an instance of C01's scheduler model
 
@@ -21,7 +21,41 @@ dataframe), so `id % 5` is a ranking.
   it is the model's `evalOuts` with every body completed (`eval_df`).
 -/
 namespace PwVerif.BridgeC16C01
-open PwVerif PwVerif.Exec PwVerif.ForLoop PwVerif.C01
+open PwVerif PwVerif.Exec PwVerif.ForLoop
+
+/-! ## C01's notions and its two theorems used here
+
+`Props/C01.lean` also pulls in the nested and the fine-grained scheduler models; to keep this bridge
+(and with it the C16 check) independent of work in progress there, the three definitions/theorems
+used are restated from the same lemmas of `Proofs/Exec.lean` they are one-line corollaries of.
+`Proofs/BridgeC16C01Link.lean` checks that they ARE `C01.Reach`, `C01.NoFaults`, `C01_once`,
+`C01_value`. -/
+
+/-- `C01.Reach` -/
+def Reach (cfg : Cfg) (d : Dag) (s : S) : Prop := ∃ acts, runActs cfg d (init d) acts = some s
+
+/-- `C01.NoFaults` -/
+def NoFaults (d : Dag) : Prop := ∀ i, d.fails i = false
+
+theorem reach_inv {cfg d s} (wf : WF d) (h : Reach cfg d s) : Inv cfg d s := by
+  obtain ⟨acts, ha⟩ := h
+  exact runActs_inv cfg d wf acts _ _ (init_inv cfg d wf) ha
+
+/-- `C01_once` -/
+theorem C01_once {cfg d s} (wf : WF d) (rank : Nat → Nat) (hrank : ∀ i j, j ∈ d.deps i → rank j < rank i)
+    (hnf : NoFaults d) (h : Reach cfg d s) (hex : s.phase = .exited) (i : Nat) (hm : d.member i) :
+    s.calls i = 1 ∧ s.st i = .done := by
+  have hinv := reach_inv wf h
+  have hd := exit_all_done cfg d wf s hinv rank hrank hex (no_faults_no_failed cfg d s hinv hnf) i hm
+  have := hinv.core.calls1 i
+  simp [hd] at this
+  exact ⟨this, hd⟩
+
+/-- `C01_value` -/
+theorem C01_value {cfg d s} (wf : WF d) (rank : Nat → Nat) (hrank : ∀ i j, j ∈ d.deps i → rank j < rank i)
+    (hnf : NoFaults d) (h : Reach cfg d s) (hex : s.phase = .exited) (i : Nat) (hm : d.member i) :
+    s.out i = .app i (headArgs d s.out i) :=
+  done_value cfg d s (reach_inv wf h) i (C01_once wf rank hrank hnf h hex i hm).2
 
 def inId (p : Nat) : Nat := 5 * p
 def itemId (P p i : Nat) : Nat := 5 * (P * i + p) + 1
@@ -97,4 +131,799 @@ theorem mkDag_wf (nodes : List Nat) (slots : Nat → List (List Nat)) (rank : Na
     simp only [mkDag, List.mem_filter, List.isEmpty_iff]
     exact ⟨(h.closed i j hj).2, hd⟩
 
+/-! ## the for-loop's sub-graph -/
+section Graph
+variable {κ ν : Type} [DecidableEq κ]
+
+/-- position of an input label in the body's signature -/
+def pos (s : Spec κ ν) (k : κ) : Nat := s.bodyInputs.idxOf k
+
+def nIn (s : Spec κ ν) : Nat := s.bodyInputs.length
+
+/-- the connection list of a channel that takes the looped value `k` of index map `m`: the get-item
+node `input_k[i]` if the map mentions `k`, no connection otherwise -/
+def cellSlot (s : Spec κ ν) (m : Dict κ) (k : κ) : List Nat :=
+  match m.lookup k with
+  | some i => if pos s k < nIn s then [itemId (nIn s) (pos s k) i] else []
+  | none => []
+
+/-- the get-item node `input_p[i]` exists iff some index map uses it -/
+def isItem (s : Spec κ ν) (maps : List (Dict κ)) (p i : Nat) : Bool :=
+  maps.any fun m => m.any fun kv => pos s kv.1 == p && kv.2 == i
+
+def forSlots (s : Spec κ ν) (maps : List (Dict κ)) (id : Nat) : List (List Nat) :=
+  if id % 5 = 0 then (if id / 5 < nIn s then [[]] else [])
+  else if id % 5 = 1 then
+    (if id / 5 % nIn s < nIn s ∧ isItem s maps (id / 5 % nIn s) (id / 5 / nIn s) = true
+      then [[inId (id / 5 % nIn s)], []] else [])
+  else if id % 5 = 2 then
+    (match maps[id / 5]? with
+     | some m => s.bodyInputs.map (cellSlot s m)
+     | none => [])
+  else if id % 5 = 3 then
+    (match maps[id / 5]? with
+     | some m => (s.iterOn ++ s.zipOn).map (cellSlot s m) ++ s.outputs.map (fun _ => [bodyId (id / 5)])
+     | none => [])
+  else if id = 4 then (List.range maps.length).map (fun n => [rowId n])
+  else []
+
+def itemIds (s : Spec κ ν) (maps : List (Dict κ)) : List Nat :=
+  maps.flatMap fun m => m.filterMap fun kv =>
+    if pos s kv.1 < nIn s then some (itemId (nIn s) (pos s kv.1) kv.2) else none
+
+def forNodes (s : Spec κ ν) (maps : List (Dict κ)) : List Nat :=
+  dedup ((List.range (nIn s)).map inId ++ itemIds s maps ++ (List.range maps.length).map bodyId
+    ++ (List.range maps.length).map rowId ++ [dfId])
+
+theorem mem_of_lookup {β : Type} (l : List (κ × β)) (k : κ) (v : β) (h : l.lookup k = some v) :
+    (k, v) ∈ l := by
+  induction l with
+  | nil => cases h
+  | cons a r ih =>
+    obtain ⟨k', v'⟩ := a
+    by_cases e : k = k'
+    · subst e
+      rw [lookup_cons_eq] at h
+      cases h
+      simp
+    · rw [lookup_cons_neq _ _ _ _ e] at h
+      exact List.mem_cons_of_mem _ (ih h)
+
+theorem mem_cellSlot (s : Spec κ ν) (m : Dict κ) (k : κ) (j : Nat) (h : j ∈ cellSlot s m k) :
+    ∃ i, (k, i) ∈ m ∧ pos s k < nIn s ∧ j = itemId (nIn s) (pos s k) i := by
+  unfold cellSlot at h
+  split at h
+  · rename_i i hl
+    split at h
+    · rename_i hp
+      simp at h
+      exact ⟨i, mem_of_lookup m k i hl, hp, h⟩
+    · cases h
+  · cases h
+
+/-- who feeds whom -/
+theorem mem_deps (s : Spec κ ν) (maps : List (Dict κ)) (id j : Nat)
+    (h : j ∈ (forSlots s maps id).flatten) :
+    (id % 5 = 1 ∧ id / 5 % nIn s < nIn s ∧ isItem s maps (id / 5 % nIn s) (id / 5 / nIn s) = true
+        ∧ j = inId (id / 5 % nIn s)) ∨
+    (id % 5 = 2 ∧ ∃ m k i, maps[id / 5]? = some m ∧ (k, i) ∈ m ∧ pos s k < nIn s
+        ∧ j = itemId (nIn s) (pos s k) i) ∨
+    (id % 5 = 3 ∧ ∃ m, maps[id / 5]? = some m ∧
+        ((∃ k i, (k, i) ∈ m ∧ pos s k < nIn s ∧ j = itemId (nIn s) (pos s k) i) ∨ j = bodyId (id / 5))) ∨
+    (id = 4 ∧ ∃ n, n < maps.length ∧ j = rowId n) := by
+  unfold forSlots at h
+  split at h
+  · split at h <;> simp at h
+  split at h
+  · rename_i h1
+    split at h
+    · rename_i hc
+      simp at h
+      exact Or.inl ⟨h1, hc.1, hc.2, h⟩
+    · simp at h
+  split at h
+  · rename_i h2
+    split at h
+    · rename_i m hm
+      simp only [List.mem_flatten, List.mem_map] at h
+      obtain ⟨l, ⟨k, _, rfl⟩, hj⟩ := h
+      obtain ⟨i, hi, hp, rfl⟩ := mem_cellSlot s m k j hj
+      exact Or.inr (Or.inl ⟨h2, m, k, i, hm, hi, hp, rfl⟩)
+    · simp at h
+  split at h
+  · rename_i h3
+    split at h
+    · rename_i m hm
+      simp only [List.mem_flatten, List.mem_append, List.mem_map] at h
+      obtain ⟨l, hl, hj⟩ := h
+      rcases hl with ⟨k, _, rfl⟩ | ⟨o, _, rfl⟩
+      · obtain ⟨i, hi, hp, rfl⟩ := mem_cellSlot s m k j hj
+        exact Or.inr (Or.inr (Or.inl ⟨h3, m, hm, Or.inl ⟨k, i, hi, hp, rfl⟩⟩))
+      · simp at hj
+        exact Or.inr (Or.inr (Or.inl ⟨h3, m, hm, Or.inr hj⟩))
+    · simp at h
+  split at h
+  · rename_i h4
+    simp only [List.mem_flatten, List.mem_map, List.mem_range] at h
+    obtain ⟨l, ⟨n, hn, rfl⟩, hj⟩ := h
+    simp at hj
+    exact Or.inr (Or.inr (Or.inr ⟨h4, n, hn, hj⟩))
+  · simp at h
+
+theorem mem_nodes_in (s : Spec κ ν) (maps : List (Dict κ)) (p : Nat) (h : p < nIn s) :
+    inId p ∈ forNodes s maps := by
+  unfold forNodes
+  rw [mem_dedup]
+  simp only [List.mem_append, List.mem_map, List.mem_range]
+  exact Or.inl (Or.inl (Or.inl (Or.inl ⟨p, h, rfl⟩)))
+
+theorem mem_nodes_item (s : Spec κ ν) (maps : List (Dict κ)) (m : Dict κ) (hm : m ∈ maps) (k : κ) (i : Nat)
+    (hk : (k, i) ∈ m) (hp : pos s k < nIn s) : itemId (nIn s) (pos s k) i ∈ forNodes s maps := by
+  unfold forNodes
+  rw [mem_dedup]
+  simp only [List.mem_append]
+  refine Or.inl (Or.inl (Or.inl (Or.inr ?_)))
+  unfold itemIds
+  simp only [List.mem_flatMap, List.mem_filterMap]
+  exact ⟨m, hm, (k, i), hk, by simp [hp]⟩
+
+theorem mem_nodes_body (s : Spec κ ν) (maps : List (Dict κ)) (n : Nat) (h : n < maps.length) :
+    bodyId n ∈ forNodes s maps := by
+  unfold forNodes
+  rw [mem_dedup]
+  simp only [List.mem_append, List.mem_map, List.mem_range]
+  exact Or.inl (Or.inl (Or.inr ⟨n, h, rfl⟩))
+
+theorem mem_nodes_row (s : Spec κ ν) (maps : List (Dict κ)) (n : Nat) (h : n < maps.length) :
+    rowId n ∈ forNodes s maps := by
+  unfold forNodes
+  rw [mem_dedup]
+  simp only [List.mem_append, List.mem_map, List.mem_range]
+  exact Or.inl (Or.inr ⟨n, h, rfl⟩)
+
+theorem mem_nodes_df (s : Spec κ ν) (maps : List (Dict κ)) : dfId ∈ forNodes s maps := by
+  unfold forNodes
+  rw [mem_dedup]
+  simp
+
+theorem isItem_spec (s : Spec κ ν) (maps : List (Dict κ)) (p i : Nat) (h : isItem s maps p i = true) :
+    ∃ m, m ∈ maps ∧ ∃ k, (k, i) ∈ m ∧ pos s k = p := by
+  unfold isItem at h
+  simp only [List.any_eq_true, Bool.and_eq_true, beq_iff_eq] at h
+  obtain ⟨m, hm, kv, hkv, h1, h2⟩ := h
+  exact ⟨m, hm, kv.1, by rw [← h2]; exact hkv, h1⟩
+
+theorem getElem?_mem_lt {α : Type} (l : List α) (n : Nat) (a : α) (h : l[n]? = some a) :
+    a ∈ l ∧ n < l.length := by
+  obtain ⟨hn, rfl⟩ := List.getElem?_eq_some_iff.mp h
+  exact ⟨List.getElem_mem hn, hn⟩
+
+/-- for EVERY layout and EVERY list of index maps: finitely many nodes, closed, ranked by layer -/
+theorem forLayered (s : Spec κ ν) (maps : List (Dict κ)) :
+    Layered (forNodes s maps) (forSlots s maps) (· % 5) where
+  nodup := nodup_dedup _
+  closed := by
+    intro id j h
+    rcases mem_deps s maps id j h with ⟨h1, hp, hit, rfl⟩ | ⟨h2, m, k, i, hm, hk, hp, rfl⟩ |
+        ⟨h3, m, hm, hj⟩ | ⟨rfl, n, hn, rfl⟩
+    · obtain ⟨m, hm, k, hk, hpos⟩ := isItem_spec s maps _ _ hit
+      refine ⟨?_, mem_nodes_in s maps _ hp⟩
+      have := mem_nodes_item s maps m hm k _ hk (by rw [hpos]; exact hp)
+      rw [hpos] at this
+      have e : itemId (nIn s) (id / 5 % nIn s) (id / 5 / nIn s) = id := by
+        unfold itemId
+        have := Nat.div_add_mod (id / 5) (nIn s)
+        omega
+      rw [e] at this; exact this
+    · obtain ⟨hmm, hlt⟩ := getElem?_mem_lt maps _ m hm
+      refine ⟨?_, mem_nodes_item s maps m hmm k i hk hp⟩
+      have := mem_nodes_body s maps _ hlt
+      have e : bodyId (id / 5) = id := by unfold bodyId; omega
+      rw [e] at this; exact this
+    · obtain ⟨hmm, hlt⟩ := getElem?_mem_lt maps _ m hm
+      have hid : id ∈ forNodes s maps := by
+        have := mem_nodes_row s maps _ hlt
+        have e : rowId (id / 5) = id := by unfold rowId; omega
+        rw [e] at this; exact this
+      rcases hj with ⟨k, i, hk, hp, rfl⟩ | rfl
+      · exact ⟨hid, mem_nodes_item s maps m hmm k i hk hp⟩
+      · exact ⟨hid, mem_nodes_body s maps _ hlt⟩
+    · exact ⟨mem_nodes_df s maps, mem_nodes_row s maps n hn⟩
+  ranked := by
+    intro id j h
+    rcases mem_deps s maps id j h with ⟨h1, _, _, rfl⟩ | ⟨h2, m, k, i, _, _, _, rfl⟩ |
+        ⟨h3, m, _, hj⟩ | ⟨rfl, n, _, rfl⟩
+    · show inId _ % 5 < id % 5
+      unfold inId; omega
+    · show itemId _ _ _ % 5 < id % 5
+      unfold itemId; omega
+    · rcases hj with ⟨k, i, _, _, rfl⟩ | rfl
+      · show itemId _ _ _ % 5 < id % 5
+        unfold itemId; omega
+      · show bodyId _ % 5 < id % 5
+        unfold bodyId; omega
+    · show rowId n % 5 < 4 % 5
+      unfold rowId; omega
+
+/-- the sub-graph as a C01 composite: ANY executor assignment, any outputs left by earlier runs -/
+def forDag (s : Spec κ ν) (maps : List (Dict κ)) (onExec : Nat → Bool) (out0 : Nat → Val) : Dag :=
+  mkDag (forNodes s maps) (forSlots s maps) onExec out0
+
+theorem forDag_wf (s : Spec κ ν) (maps : List (Dict κ)) (onExec : Nat → Bool) (out0 : Nat → Val) :
+    WF (forDag s maps onExec out0) :=
+  mkDag_wf _ _ _ onExec out0 (forLayered s maps)
+
+theorem forSlots_ranked (s : Spec κ ν) (maps : List (Dict κ)) (d : Dag) (hd : d.slots = forSlots s maps) :
+    ∀ i j, j ∈ d.deps i → j % 5 < i % 5 := by
+  intro i j h
+  unfold Dag.deps at h
+  rw [hd] at h
+  exact (forLayered s maps).ranked i j h
+
+end Graph
+
+/-! ## every schedule computes the same explicit terms -/
+section Terms
+variable {κ ν : Type} [DecidableEq κ]
+
+def tIn (p : Nat) : Val := .app (inId p) [.d]
+def tItem (P p i : Nat) : Val := .app (itemId P p i) [tIn p, .d]
+
+/-- what a channel for the looped value `k` of index map `m` receives -/
+def cellTerm (s : Spec κ ν) (m : Dict κ) (k : κ) : Val :=
+  match m.lookup k with
+  | some i => if pos s k < nIn s then tItem (nIn s) (pos s k) i else .d
+  | none => .d
+
+def tBody (s : Spec κ ν) (m : Dict κ) (n : Nat) : Val :=
+  .app (bodyId n) (s.bodyInputs.map (cellTerm s m))
+
+def tRow (s : Spec κ ν) (m : Dict κ) (n : Nat) : Val :=
+  .app (rowId n) ((s.iterOn ++ s.zipOn).map (cellTerm s m) ++ s.outputs.map fun _ => tBody s m n)
+
+def tDf (s : Spec κ ν) (maps : List (Dict κ)) : Val :=
+  .app dfId ((enum 0 maps).map fun nm => tRow s nm.2 nm.1)
+
+theorem forSlots_in (s : Spec κ ν) (maps : List (Dict κ)) (p : Nat) (h : p < nIn s) :
+    forSlots s maps (inId p) = [[]] := by
+  unfold forSlots inId
+  have h1 : 5 * p % 5 = 0 := by omega
+  have h2 : 5 * p / 5 = p := by omega
+  simp [h1, h2, h]
+
+theorem item_decode (P p i : Nat) (h : p < P) :
+    itemId P p i % 5 = 1 ∧ itemId P p i / 5 % P = p ∧ itemId P p i / 5 / P = i := by
+  unfold itemId
+  have h2 : (5 * (P * i + p) + 1) / 5 = P * i + p := by omega
+  refine ⟨by omega, ?_, ?_⟩
+  · rw [h2, Nat.mul_add_mod, Nat.mod_eq_of_lt h]
+  · rw [h2, Nat.mul_add_div (by omega), Nat.div_eq_of_lt h]; simp
+
+theorem forSlots_item (s : Spec κ ν) (maps : List (Dict κ)) (p i : Nat) (h : p < nIn s)
+    (hit : isItem s maps p i = true) : forSlots s maps (itemId (nIn s) p i) = [[inId p], []] := by
+  obtain ⟨h1, h2, h3⟩ := item_decode (nIn s) p i h
+  unfold forSlots
+  simp [h1, h2, h3, h, hit]
+
+theorem forSlots_body (s : Spec κ ν) (maps : List (Dict κ)) (n : Nat) (m : Dict κ) (hm : maps[n]? = some m) :
+    forSlots s maps (bodyId n) = s.bodyInputs.map (cellSlot s m) := by
+  unfold forSlots bodyId
+  have h1 : (5 * n + 2) % 5 = 2 := by omega
+  have h2 : (5 * n + 2) / 5 = n := by omega
+  simp [h1, h2, hm]
+
+theorem forSlots_row (s : Spec κ ν) (maps : List (Dict κ)) (n : Nat) (m : Dict κ) (hm : maps[n]? = some m) :
+    forSlots s maps (rowId n)
+      = (s.iterOn ++ s.zipOn).map (cellSlot s m) ++ s.outputs.map (fun _ => [bodyId n]) := by
+  unfold forSlots rowId
+  have h1 : (5 * n + 3) % 5 = 3 := by omega
+  have h2 : (5 * n + 3) / 5 = n := by omega
+  simp [h1, h2, hm]
+
+theorem forSlots_df (s : Spec κ ν) (maps : List (Dict κ)) :
+    forSlots s maps dfId = (List.range maps.length).map (fun n => [rowId n]) := by
+  unfold forSlots dfId
+  simp
+
+theorem isItem_of_mem (s : Spec κ ν) (maps : List (Dict κ)) (m : Dict κ) (hm : m ∈ maps) (k : κ) (i : Nat)
+    (hk : (k, i) ∈ m) : isItem s maps (pos s k) i = true := by
+  unfold isItem
+  simp only [List.any_eq_true, Bool.and_eq_true, beq_iff_eq]
+  exact ⟨m, hm, (k, i), hk, rfl, rfl⟩
+
+/-- every index map mentions every looped label, the looped labels are body inputs, something is looped
+(true of the maps `dictionary_to_index_maps` returns under the guard) -/
+structure Wired (s : Spec κ ν) (maps : List (Dict κ)) : Prop where
+  sub : ∀ k ∈ s.iterOn ++ s.zipOn, k ∈ s.bodyInputs
+  nonempty : s.iterOn ++ s.zipOn ≠ []
+  full : ∀ m ∈ maps, ∀ k ∈ s.iterOn ++ s.zipOn, ∃ i, m.lookup k = some i
+
+theorem pos_lt (s : Spec κ ν) (k : κ) (h : k ∈ s.bodyInputs) : pos s k < nIn s := by
+  unfold pos nIn
+  exact List.idxOf_lt_length_iff.mpr h
+
+end Terms
+
+section Sched
+variable {κ ν : Type} [DecidableEq κ]
+
+theorem enum_map_range' {α β : Type} (a : Nat) (l : List α) (f : Nat × α → β) (g : Nat → β)
+    (h : ∀ n x, l[n]? = some x → g (a + n) = f (a + n, x)) :
+    (enum a l).map f = (List.range' a l.length).map g := by
+  induction l generalizing a with
+  | nil => rfl
+  | cons x r ih =>
+    simp only [enum, List.map_cons, List.length_cons, List.range'_succ]
+    have h0 := h 0 x (by simp)
+    simp only [Nat.add_zero] at h0
+    rw [h0, ih (a + 1) (fun n y hy => by
+      have := h (n + 1) y (by simpa using hy)
+      have e : a + (n + 1) = a + 1 + n := by omega
+      rw [e] at this; exact this)]
+
+/-- the hypotheses under which C01 speaks about a run of the loop's sub-graph: the data wiring is
+`forSlots`, the execution wiring is well-formed (any order of `ran` connections and starters, ANY
+executor assignment `d.onExec`, any initial outputs `d.out0`), no child raises, and `t` is the state
+some schedule `acts` reaches when the run returns -/
+structure Sched (s : Spec κ ν) (maps : List (Dict κ)) (cfg : Cfg) (d : Dag) (t : S) : Prop where
+  slots : d.slots = forSlots s maps
+  wf : WF d
+  nofaults : NoFaults d
+  reach : Reach cfg d t
+  exited : t.phase = .exited
+
+variable {s : Spec κ ν} {maps : List (Dict κ)} {cfg : Cfg} {d : Dag} {t : S}
+
+theorem Sched.deps (h : Sched s maps cfg d t) (i : Nat) : d.deps i = (forSlots s maps i).flatten := by
+  unfold Dag.deps; rw [h.slots]
+
+/-- C01_once + C01_value at a child of the sub-graph -/
+theorem Sched.node (h : Sched s maps cfg d t) (i : Nat) (hm : d.member i) :
+    t.calls i = 1 ∧ t.st i = .done ∧ t.out i = .app i (headArgs d t.out i) := by
+  have hrank := forSlots_ranked s maps d h.slots
+  have h1 := C01_once h.wf (· % 5) hrank h.nofaults h.reach h.exited i hm
+  exact ⟨h1.1, h1.2, C01_value h.wf (· % 5) hrank h.nofaults h.reach h.exited i hm⟩
+
+theorem Sched.out_in (h : Sched s maps cfg d t) (p : Nat) (hp : p < nIn s) (i : Nat)
+    (hdep : inId p ∈ d.deps i) : t.out (inId p) = tIn p := by
+  have hroot : d.deps (inId p) = [] := by rw [h.deps, forSlots_in s maps p hp]; rfl
+  have hm : d.member (inId p) := Or.inl (h.wf.rootsStart i (inId p) hdep hroot)
+  rw [(h.node _ hm).2.2]
+  unfold headArgs tIn
+  rw [h.slots, forSlots_in s maps p hp]
+  rfl
+
+theorem Sched.out_item (h : Sched s maps cfg d t) (m : Dict κ) (hm : m ∈ maps) (k : κ) (i : Nat)
+    (hk : (k, i) ∈ m) (hp : pos s k < nIn s) :
+    t.out (itemId (nIn s) (pos s k) i) = tItem (nIn s) (pos s k) i ∧ t.calls (itemId (nIn s) (pos s k) i) = 1 := by
+  have hsl := forSlots_item s maps (pos s k) i hp (isItem_of_mem s maps m hm k i hk)
+  have hdeps : d.deps (itemId (nIn s) (pos s k) i) = [inId (pos s k)] := by rw [h.deps, hsl]; rfl
+  have hmem : d.member (itemId (nIn s) (pos s k) i) := Or.inr (by rw [hdeps]; simp)
+  obtain ⟨hc, _, ho⟩ := h.node _ hmem
+  refine ⟨?_, hc⟩
+  rw [ho]
+  unfold headArgs tItem
+  rw [h.slots, hsl]
+  simp only [List.map_cons, List.map_nil]
+  rw [h.out_in (pos s k) hp _ (by rw [hdeps]; simp)]
+
+theorem Sched.out_cell (h : Sched s maps cfg d t) (m : Dict κ) (hm : m ∈ maps) (k : κ) :
+    (match cellSlot s m k with | [] => Val.d | c :: _ => t.out c) = cellTerm s m k := by
+  unfold cellSlot cellTerm
+  cases hl : m.lookup k with
+  | none => rfl
+  | some i =>
+    by_cases hp : pos s k < nIn s
+    · simp only [hp, ↓reduceIte]
+      exact (h.out_item m hm k i (mem_of_lookup m k i hl) hp).1
+    · simp only [hp, ↓reduceIte]
+
+theorem cells_nonempty (w : Wired s maps) (m : Dict κ) (hm : m ∈ maps) (ks : List κ)
+    (hks : ∀ k ∈ s.iterOn ++ s.zipOn, k ∈ ks) : (ks.map (cellSlot s m)).flatten ≠ [] := by
+  obtain ⟨k, hk⟩ := List.exists_mem_of_ne_nil _ w.nonempty
+  obtain ⟨i, hi⟩ := w.full m hm k hk
+  have hp := pos_lt s k (w.sub k hk)
+  intro hnil
+  have : itemId (nIn s) (pos s k) i ∈ (ks.map (cellSlot s m)).flatten := by
+    simp only [List.mem_flatten, List.mem_map]
+    exact ⟨cellSlot s m k, ⟨k, hks k hk, rfl⟩, by simp [cellSlot, hi, hp]⟩
+  rw [hnil] at this; cases this
+
+theorem Sched.out_body (h : Sched s maps cfg d t) (w : Wired s maps) (n : Nat) (m : Dict κ)
+    (hn : maps[n]? = some m) : t.out (bodyId n) = tBody s m n ∧ t.calls (bodyId n) = 1 := by
+  obtain ⟨hm, _⟩ := getElem?_mem_lt maps n m hn
+  have hsl := forSlots_body s maps n m hn
+  have hmem : d.member (bodyId n) := Or.inr (by
+    rw [h.deps, hsl]; exact cells_nonempty w m hm _ (fun k hk => w.sub k hk))
+  obtain ⟨hc, _, ho⟩ := h.node _ hmem
+  refine ⟨?_, hc⟩
+  rw [ho]
+  unfold headArgs tBody
+  rw [h.slots, hsl, List.map_map]
+  congr 1
+  apply List.map_congr_left
+  intro k _
+  exact h.out_cell m hm k
+
+theorem Sched.out_row (h : Sched s maps cfg d t) (w : Wired s maps) (n : Nat) (m : Dict κ)
+    (hn : maps[n]? = some m) : t.out (rowId n) = tRow s m n := by
+  obtain ⟨hm, _⟩ := getElem?_mem_lt maps n m hn
+  have hsl := forSlots_row s maps n m hn
+  have hmem : d.member (rowId n) := Or.inr (by
+    rw [h.deps, hsl, List.flatten_append]
+    intro hnil
+    exact cells_nonempty w m hm _ (fun k hk => hk) (List.append_eq_nil_iff.mp hnil).1)
+  rw [(h.node _ hmem).2.2]
+  unfold headArgs tRow
+  rw [h.slots, hsl, List.map_append, List.map_map, List.map_map]
+  congr 1
+  congr 1
+  · apply List.map_congr_left
+    intro k _
+    exact h.out_cell m hm k
+  · apply List.map_congr_left
+    intro o _
+    exact (h.out_body w n m hn).1
+
+theorem Sched.out_df (h : Sched s maps cfg d t) (w : Wired s maps) (hne : maps ≠ []) :
+    t.out dfId = tDf s maps := by
+  have hsl := forSlots_df s maps
+  have hmem : d.member dfId := Or.inr (by
+    rw [h.deps, hsl]
+    cases maps with
+    | nil => exact absurd rfl hne
+    | cons m r => simp [List.range_succ_eq_map])
+  rw [(h.node _ hmem).2.2]
+  unfold headArgs tDf
+  rw [h.slots, hsl, List.map_map, List.range_eq_range']
+  congr 1
+  symm
+  apply enum_map_range' 0 maps
+  intro n m hn
+  simp only [Nat.zero_add, Function.comp_def]
+  exact h.out_row w n m hn
+
+end Sched
+
+/-! ## what the terms mean: interpretation in the for-loop model's value domain -/
+section Sem
+variable {κ ν : Type} [DecidableEq κ]
+
+inductive U (κ ν : Type)
+  | inval (v : InVal ν)                 -- output of a user-input node
+  | cell (c : Option ν)                 -- output of a get-item node (`none`: it cannot deliver)
+  | outs (o : Option (List (κ × ν)))    -- the outputs of a body copy under their column names
+  | row (r : Option (List (κ × ν)))     -- output of a row collector
+  | table (t : Option (Table κ ν))      -- output of the dataframe node
+  | own                                 -- no connection: the channel's own value
+  | bad
+
+mutual
+def evalV (F : Nat → List (U κ ν) → U κ ν) : Val → U κ ν
+  | .nd => .bad
+  | .d => .own
+  | .app f args => F f (evalArgs F args)
+def evalArgs (F : Nat → List (U κ ν) → U κ ν) : List Val → List (U κ ν)
+  | [] => []
+  | v :: vs => evalV F v :: evalArgs F vs
+end
+
+omit [DecidableEq κ] in
+theorem evalArgs_map (F : Nat → List (U κ ν) → U κ ν) (l : List Val) : evalArgs F l = l.map (evalV F) := by
+  induction l with
+  | nil => rfl
+  | cons a r ih => simp [evalArgs, ih]
+
+/-- the argument a body copy sees on input `k`, given what its channel holds -/
+def argOf (s : Spec κ ν) (cur : Cur κ ν) (k : κ) : U κ ν → Option ν
+  | .cell c => c
+  | .own =>
+    if k ∈ s.iterOn ++ s.zipOn then s.bodyDefault k
+    else match valOf cur k with
+      | .nd => none
+      | .one v => some v
+      | .many vs => some (s.listVal vs)
+  | _ => none
+
+def zipW {α β γ : Type} (f : α → β → γ) : List α → List β → List γ
+  | a :: as, b :: bs => f a b :: zipW f as bs
+  | _, _ => []
+
+/-- the function each node of the sub-graph computes (node kind = `id % 5`) -/
+def sem (s : Spec κ ν) (cur : Cur κ ν) (id : Nat) (args : List (U κ ν)) : U κ ν :=
+  if id % 5 = 0 then
+    (match s.bodyInputs[id / 5]? with
+     | some k => .inval (valOf cur k)
+     | none => .bad)
+  else if id % 5 = 1 then
+    (match args with
+     | [.inval (.many vs), .own] => .cell vs[id / 5 / nIn s]?
+     | [.inval _, .own] => .cell none
+     | _ => .bad)
+  else if id % 5 = 2 then
+    .outs (match optAll (zipW (argOf s cur) s.bodyInputs args) with
+           | some a => some (s.outputs.map fun o => (s.colmap o, s.bodyFn o a))
+           | none => none)
+  else if id % 5 = 3 then
+    .row (match optAll (zipW (fun k u => match u with | U.cell c => c.map (k, ·) | _ => none)
+                          (s.iterOn ++ s.zipOn) (args.take (s.iterOn ++ s.zipOn).length)) with
+          | none => none
+          | some l =>
+            match (if s.outputs = [] then some []
+                   else match args.drop (s.iterOn ++ s.zipOn).length with
+                     | .outs x :: _ => x
+                     | _ => none) with
+            | none => none
+            | some o => some (rupdate (l ++ o)))
+  else if id = 4 then .table (optAll (args.map fun u => match u with | U.row r => r | _ => none))
+  else .bad
+
+omit [DecidableEq κ] in
+theorem zipW_map {α β γ : Type} (f : α → β → γ) (g : α → β) (l : List α) :
+    zipW f l (l.map g) = l.map fun a => f a (g a) := by
+  induction l with
+  | nil => rfl
+  | cons a r ih => simp [zipW, ih]
+
+theorem lookup_wires (cur : Cur κ ν) (m : Dict κ) (k : κ) :
+    (wires cur m).lookup k = (m.lookup k).map (itemVal cur k) := by
+  unfold wires
+  induction m with
+  | nil => rfl
+  | cons a r ih =>
+    obtain ⟨k', i⟩ := a
+    by_cases e : k = k'
+    · subst e; simp
+    · rw [List.map_cons, lookup_cons_neq _ _ _ _ e, lookup_cons_neq _ _ _ _ e, ih]
+
+theorem getElem?_pos (s : Spec κ ν) (k : κ) (h : k ∈ s.bodyInputs) : s.bodyInputs[pos s k]? = some k := by
+  unfold pos
+  rw [List.getElem?_eq_getElem (List.idxOf_lt_length_iff.mpr h)]
+  simp
+
+theorem eval_item (s : Spec κ ν) (cur : Cur κ ν) (k : κ) (hk : k ∈ s.bodyInputs) (i : Nat) :
+    evalV (sem s cur) (tItem (nIn s) (pos s k) i) = .cell (itemVal cur k i) := by
+  obtain ⟨h1, h2, h3⟩ := item_decode (nIn s) (pos s k) i (pos_lt s k hk)
+  have hin : evalV (sem s cur) (tIn (pos s k)) = .inval (valOf cur k) := by
+    unfold tIn
+    simp only [evalV, evalArgs, sem, inId]
+    have e1 : 5 * pos s k % 5 = 0 := by omega
+    have e2 : 5 * pos s k / 5 = pos s k := by omega
+    simp [e1, e2, getElem?_pos s k hk]
+  unfold tItem
+  simp only [evalV, evalArgs, hin]
+  unfold sem itemVal
+  simp only [h1, ↓reduceIte, h3]
+  cases valOf cur k <;> rfl
+
+/-- a looped channel: what the get-item node delivers, as the model's `wires` say -/
+theorem eval_cell (s : Spec κ ν) (cur : Cur κ ν) (m : Dict κ) (k : κ) (hk : k ∈ s.bodyInputs) :
+    evalV (sem s cur) (cellTerm s m k)
+      = match (wires cur m).lookup k with
+        | some c => .cell c
+        | none => .own := by
+  rw [lookup_wires]
+  unfold cellTerm
+  cases hl : m.lookup k with
+  | none => simp [evalV]
+  | some i =>
+    simp only [pos_lt s k hk, ↓reduceIte, Option.map_some]
+    exact eval_item s cur k hk i
+
+theorem sem_body (s : Spec κ ν) (cur : Cur κ ν) (n : Nat) (args : List (U κ ν)) :
+    sem s cur (bodyId n) args
+      = .outs (match optAll (zipW (argOf s cur) s.bodyInputs args) with
+               | some a => some (s.outputs.map fun o => (s.colmap o, s.bodyFn o a))
+               | none => none) := by
+  unfold sem bodyId
+  have e0 : ¬ (5 * n + 2) % 5 = 0 := by omega
+  have e1 : ¬ (5 * n + 2) % 5 = 1 := by omega
+  have e2 : (5 * n + 2) % 5 = 2 := by omega
+  rw [if_neg e0, if_neg e1, if_pos e2]
+
+theorem sem_row (s : Spec κ ν) (cur : Cur κ ν) (n : Nat) (args : List (U κ ν)) :
+    sem s cur (rowId n) args
+      = .row (match optAll (zipW (fun k u => match u with | U.cell c => c.map (k, ·) | _ => none)
+                          (s.iterOn ++ s.zipOn) (args.take (s.iterOn ++ s.zipOn).length)) with
+          | none => none
+          | some l =>
+            match (if s.outputs = [] then some []
+                   else match args.drop (s.iterOn ++ s.zipOn).length with
+                     | .outs x :: _ => x
+                     | _ => none) with
+            | none => none
+            | some o => some (rupdate (l ++ o))) := by
+  unfold sem rowId
+  have e0 : ¬ (5 * n + 3) % 5 = 0 := by omega
+  have e1 : ¬ (5 * n + 3) % 5 = 1 := by omega
+  have e2 : ¬ (5 * n + 3) % 5 = 2 := by omega
+  have e3 : (5 * n + 3) % 5 = 3 := by omega
+  rw [if_neg e0, if_neg e1, if_neg e2, if_pos e3]
+
+theorem sem_df (s : Spec κ ν) (cur : Cur κ ν) (args : List (U κ ν)) :
+    sem s cur dfId args = .table (optAll (args.map fun u => match u with | U.row r => r | _ => none)) := by
+  unfold sem dfId
+  simp
+
+theorem eval_body (s : Spec κ ν) (cur : Cur κ ν) (m : Dict κ) (n : Nat) :
+    evalV (sem s cur) (tBody s m n)
+      = .outs (match optAll (s.bodyInputs.map (bodyArg s cur (wires cur m))) with
+               | some a => some (s.outputs.map fun o => (s.colmap o, s.bodyFn o a))
+               | none => none) := by
+  unfold tBody
+  simp only [evalV, evalArgs_map, List.map_map]
+  rw [sem_body, zipW_map]
+  have : (s.bodyInputs.map fun a => argOf s cur a ((evalV (sem s cur) ∘ cellTerm s m) a))
+      = s.bodyInputs.map (bodyArg s cur (wires cur m)) := by
+    apply List.map_congr_left
+    intro k hk
+    simp only [Function.comp_def]
+    rw [eval_cell s cur m k hk]
+    unfold bodyArg
+    cases (wires cur m).lookup k <;> rfl
+  rw [this]
+
+theorem outs_model (s : Spec κ ν) (cur : Cur κ ν) (w : List (κ × Option ν)) :
+    optAll (s.outputs.map fun o => (bodyOut s cur w o).map (s.colmap o, ·))
+      = if s.outputs = [] then some []
+        else match optAll (s.bodyInputs.map (bodyArg s cur w)) with
+          | some a => some (s.outputs.map fun o => (s.colmap o, s.bodyFn o a))
+          | none => none := by
+  unfold bodyOut
+  cases ha : optAll (s.bodyInputs.map (bodyArg s cur w)) with
+  | some a =>
+    simp only [Option.map_some]
+    rw [optAll_map_some']
+    split
+    · rename_i h; simp [h]
+    · rfl
+  | none =>
+    simp only [Option.map_none]
+    cases s.outputs with
+    | nil => rfl
+    | cons o r => simp [optAll]
+
+theorem eval_row (s : Spec κ ν) (cur : Cur κ ν) (hsub : ∀ k ∈ s.iterOn ++ s.zipOn, k ∈ s.bodyInputs)
+    (m : Dict κ) (n : Nat) (order : List Nat) (hn : n ∈ order) :
+    evalV (sem s cur) (tRow s m n) = .row (rowAt s cur order n (wires cur m)) := by
+  unfold tRow
+  generalize hL : s.iterOn ++ s.zipOn = L at hsub ⊢
+  simp only [evalV, evalArgs_map, List.map_append, List.map_map]
+  rw [sem_row, hL]
+  have hlen : (L.map (evalV (sem s cur) ∘ cellTerm s m)).length = L.length := by simp
+  rw [← hlen, List.take_left, List.drop_left, zipW_map]
+  have hcells : (L.map fun a =>
+        match (evalV (sem s cur) ∘ cellTerm s m) a with
+        | U.cell c => Option.map (fun x => (a, x)) c
+        | _ => none)
+      = L.map fun k => (loopedCell (wires cur m) k).map (k, ·) := by
+    apply List.map_congr_left
+    intro k hk
+    simp only [Function.comp_def]
+    rw [eval_cell s cur m k (hsub k hk)]
+    unfold loopedCell
+    cases (wires cur m).lookup k <;> rfl
+  rw [hcells]
+  have houts : (if s.outputs = [] then some []
+        else match s.outputs.map ((evalV (sem s cur)) ∘ fun _ => tBody s m n) with
+          | U.outs x :: _ => x
+          | _ => none)
+      = optAll (s.outputs.map fun o => (bodyOutAt s cur order n (wires cur m) o).map (s.colmap o, ·)) := by
+    have e : ∀ o, bodyOutAt s cur order n (wires cur m) o = bodyOut s cur (wires cur m) o := by
+      intro o; simp [bodyOutAt, hn]
+    simp only [e]
+    rw [outs_model]
+    cases ho : s.outputs with
+    | nil => rfl
+    | cons o r =>
+      simp only [List.map_cons, Function.comp_def, eval_body, reduceCtorEq, ↓reduceIte]
+      rw [ho]
+      rfl
+  rw [houts]
+  subst hL
+  rfl
+
+omit [DecidableEq κ] in
+theorem enum_map_congr2 {α β : Type} (a : Nat) (l : List α) (G G' : Nat → α → β)
+    (h : ∀ n, a ≤ n → n < a + l.length → ∀ x ∈ l, G n x = G' n x) :
+    (enum a l).map (fun nx => G nx.1 nx.2) = (enum a l).map (fun nx => G' nx.1 nx.2) := by
+  induction l generalizing a with
+  | nil => rfl
+  | cons x r ih =>
+    simp only [enum, List.map_cons]
+    rw [h a (Nat.le_refl _) (by simp) x (by simp)]
+    rw [ih (a + 1) fun n h1 h2 y hy => h n (by omega) (by simp; omega) y (by simp [hy])]
+
+/-- the term every schedule computes at the dataframe node denotes what the model's `evalOuts`
+delivers when every body has completed -/
+theorem eval_df (s : Spec κ ν) (cur : Cur κ ν) (hsub : ∀ k ∈ s.iterOn ++ s.zipOn, k ∈ s.bodyInputs)
+    (maps : List (Dict κ)) (order : List Nat) (hc : Covers order maps.length) :
+    evalV (sem s cur) (tDf s maps)
+      = .table (optAll ((enum 0 maps).map fun nm => rowAt s cur order nm.1 (wires cur nm.2))) := by
+  unfold tDf
+  simp only [evalV, evalArgs_map, List.map_map]
+  rw [sem_df, List.map_map]
+  congr 2
+  apply enum_map_congr2 0 maps
+    (fun n m => match evalV (sem s cur) (tRow s m n) with | U.row r => r | _ => none)
+    (fun n m => rowAt s cur order n (wires cur m))
+  intro n _ hn m _
+  rw [eval_row s cur hsub m n order (hc n (by omega))]
+
+end Sem
+
+/-! ## the bridge theorem -/
+section Main
+variable {κ ν : Type} [DecidableEq κ]
+
+/-- the index maps of good inputs wire every body completely -/
+theorem wired_refMaps (s : Spec κ ν) (v : Valid s) (cur : Cur κ ν) (g : Good s cur) :
+    Wired s (refMaps (lensOfCur cur s.iterOn) (lensOfCur cur s.zipOn)) where
+  sub := v.sub
+  nonempty := v.nonempty
+  full := by
+    intro m hm k hk
+    have hk' : k ∈ (lensOfCur cur s.iterOn ++ lensOfCur cur s.zipOn).map (·.1) := by
+      simpa [List.map_append, lensOfCur_fst] using hk
+    have := dget_refMaps _ _ m hm k hk'
+    unfold dget at this
+    cases hl : m.lookup k with
+    | none => exact absurd hl this
+    | some i => exact ⟨i, rfl⟩
+
+/-- SCHEDULE INDEPENDENCE. Table form, good inputs. Take ANY C01 composite over the sub-graph the
+loop builds for these inputs (any order of `ran` connections and starting nodes, ANY assignment of
+children to executors — the body copies, or everything —, any outputs left over from earlier runs)
+and ANY schedule of starts, signal deliveries and executor completions that runs it to the end.
+Then the term the dataframe node holds denotes exactly the reference table, and every body copy was
+executed exactly once. (C01_once + C01_value give the term, `eval_df` + `evalOuts_ref` its meaning.) -/
+theorem schedule_independent (s : Spec κ ν) (v : Valid s) (hdf : s.asDf = true) (cur : Cur κ ν)
+    (g : Good s cur) {cfg : Cfg} {d : Dag} {t : S}
+    (h : Sched s (refMaps (lensOfCur cur s.iterOn) (lensOfCur cur s.zipOn)) cfg d t) :
+    evalV (sem s cur) (t.out dfId) = .table (some (refTable s cur)) ∧
+    ∀ n, n < (combos s cur).length → t.calls (bodyId n) = 1 ∧ t.st (bodyId n) = .done := by
+  have w := wired_refMaps s v cur g
+  have hpos := refMaps_pos _ _ (guard_of_good s cur v g)
+  have hne : refMaps (lensOfCur cur s.iterOn) (lensOfCur cur s.zipOn) ≠ [] := by
+    intro e; rw [e] at hpos; simp at hpos
+  constructor
+  · rw [h.out_df w hne]
+    have hc : Covers (List.range (refMaps (lensOfCur cur s.iterOn) (lensOfCur cur s.zipOn)).length)
+        (refMaps (lensOfCur cur s.iterOn) (lensOfCur cur s.zipOn)).length := by
+      intro n hn; simpa using hn
+    rw [eval_df s cur v.sub _ _ hc]
+    have href := evalOuts_ref s cur v g
+      (List.range (refMaps (lensOfCur cur s.iterOn) (lensOfCur cur s.zipOn)).length)
+      (by rw [length_combos]; exact hc)
+    unfold evalOuts refOuts at href
+    simp only [hdf, ↓reduceIte, Outs.df.injEq] at href
+    rw [href]
+  · intro n hn
+    rw [length_combos] at hn
+    obtain ⟨m, hm⟩ : ∃ m, (refMaps (lensOfCur cur s.iterOn) (lensOfCur cur s.zipOn))[n]? = some m :=
+      ⟨_, List.getElem?_eq_getElem hn⟩
+    obtain ⟨hmem, _⟩ := getElem?_mem_lt _ n m hm
+    have hsl := forSlots_body s _ n m hm
+    have hmemb : d.member (bodyId n) := Or.inr (by
+      rw [h.deps, hsl]; exact cells_nonempty w m hmem _ (fun k hk => w.sub k hk))
+    have := h.node _ hmemb
+    exact ⟨this.1, this.2.1⟩
+
+/-- two schedules (possibly under different executor assignments and signal orders) of the same
+sub-graph leave the same value at the dataframe node -/
+theorem schedule_independent_pair (s : Spec κ ν) (maps : List (Dict κ)) (w : Wired s maps) (hne : maps ≠ [])
+    {cfg cfg' : Cfg} {d d' : Dag} {t t' : S} (h : Sched s maps cfg d t) (h' : Sched s maps cfg' d' t') :
+    t.out dfId = t'.out dfId := by
+  rw [h.out_df w hne, h'.out_df w hne]
+
+/-- the hypotheses are satisfiable for every layout: the canonical wiring, every body copy on an
+executor, run by the canonical schedule... (existence of a `Sched` is shown on a concrete instance in
+`Props/C16.lean`); well-formedness holds for EVERY layout and EVERY list of index maps -/
+theorem sched_wf (s : Spec κ ν) (maps : List (Dict κ)) (onExec : Nat → Bool) (out0 : Nat → Val) :
+    WF (forDag s maps onExec out0) ∧ (forDag s maps onExec out0).slots = forSlots s maps ∧
+    NoFaults (forDag s maps onExec out0) ∧
+    ∀ i j, j ∈ (forDag s maps onExec out0).deps i → j % 5 < i % 5 :=
+  ⟨forDag_wf s maps onExec out0, rfl, fun _ => rfl, forSlots_ranked s maps _ rfl⟩
+
+end Main
 end PwVerif.BridgeC16C01
